@@ -79,6 +79,10 @@ def run_history(ctx, rng, idx):
         N["pts"][0][0] += 1000
     if rng.random() < 0.3:
         G.add_orphans(rng, M, 1)
+    if rng.random() < 0.3:
+        # points stored in ascending x order but unordered in y within equal x (a common output order of mesh generators)
+        n_ = len(M["pts"])
+        M = G.reorder_points(M, sorted(range(n_), key=lambda i: (M["pts"][i][0], -M["pts"][i][1] if M["dim"] > 1 else 0)))
     a, arrs_a = build(M)
     b, arrs_b = build(N)
     arrays = arrs_a + arrs_b
@@ -128,6 +132,10 @@ def run_history(ctx, rng, idx):
                     elif op == "sort_points":
                         x = sort_points(a)
                         [x.domain.connectivity(ct) for ct in x.domain.cell_types]
+                        x2 = sort_points(a)
+                        if not np.array_equal(np.asarray(x.domain.points), np.asarray(x2.domain.points)):
+                            ctx.violation("E4", "sorting the points of the same object twice gives different point orders", canon,
+                                          executed=executed + [op])
                     elif op == "sort_cells":
                         x = sort_cells(b)
                         [x.domain.connectivity(ct) for ct in x.domain.cell_types]
@@ -324,21 +332,47 @@ def file_history(ctx, rng, idx):
             pth = os.path.join(work, nm + ".vtu")
             V.write_vtu(pth, pts, cells, [("p", "Float64", 1, [float(v) for v in X["pf"]["p"]])], [], V.Cfg(rng.choice(["ascii", "binary", "appended-raw"])))
             paths.append(pth)
+        # the same data also as two-step sequences (.pvd) and inside two directories
+        variant = rng.choice(["single", "single", "sequence", "directories"])
+        targets = [paths[0], paths[1]]
+        mode = "file"
+        if variant == "sequence":
+            for nm, pth in (("res", paths[0]), ("ref", paths[1])):
+                shutil.copy(pth, os.path.join(work, nm + "_step1.vtu"))
+                V.write_pvd(os.path.join(work, nm + ".pvd"), [nm + ".vtu", nm + "_step1.vtu"])
+                paths += [os.path.join(work, nm + "_step1.vtu"), os.path.join(work, nm + ".pvd")]
+            targets = [os.path.join(work, "res.pvd"), os.path.join(work, "ref.pvd")]
+        elif variant == "directories":
+            for nm, pth in (("res", paths[0]), ("ref", paths[1])):
+                os.makedirs(os.path.join(work, "dir_" + nm))
+                shutil.copy(pth, os.path.join(work, "dir_" + nm, "data.vtu"))
+                paths.append(os.path.join(work, "dir_" + nm, "data.vtu"))
+            targets = [os.path.join(work, "dir_res"), os.path.join(work, "dir_ref")]
+            mode = "dir"
         sha = lambda: [hashlib.sha256(open(p, "rb").read()).hexdigest() for p in paths]  # noqa: E731
         mt = lambda: [os.stat(p).st_mtime_ns for p in paths]  # noqa: E731
-        h0, m0, l0 = sha(), mt(), sorted(os.listdir(work))
+        tree = lambda: sorted(os.path.join(r, f) for r, _, fs in os.walk(work) for f in fs)  # noqa: E731
+        # the commands run from an empty working directory of their own: nothing may appear there either
+        cwd_dir = os.path.join(work, "cwd_of_the_command")
+        os.makedirs(cwd_dir)
+        h0, m0, l0 = sha(), mt(), tree()
         codes = []
-        with warnings.catch_warnings():
-            warnings.simplefilter("ignore")
-            for _ in range(2):
-                codes.append(run_cli(["file", paths[0], paths[1], "--verbosity", "0"])[0])
-        canon = {"file_history": idx, "points": len(M["pts"])}
+        old_cwd = os.getcwd()
+        os.chdir(cwd_dir)
+        try:
+            with warnings.catch_warnings():
+                warnings.simplefilter("ignore")
+                for _ in range(2):
+                    codes.append(run_cli([mode, targets[0], targets[1], "--verbosity", "0"])[0])
+        finally:
+            os.chdir(old_cwd)
+        canon = {"file_history": idx, "points": len(M["pts"]), "variant": variant}
         ctx.case(canon, True, sample={"file_history": {"exit_codes": codes}})
-        ctx.count("file history")
+        ctx.count("file history:" + variant)
         if sha() != h0 or mt() != m0:
             ctx.violation("E4", "comparing modified an input file", canon)
-        if sorted(os.listdir(work)) != l0:
-            ctx.violation("E4", f"comparing wrote unrequested files: {sorted(set(os.listdir(work)) - set(l0))}", canon)
+        if tree() != l0:
+            ctx.violation("E4", f"comparing ({variant}) wrote unrequested files: {sorted(set(tree()) - set(l0))}", canon)
         if codes[0] != codes[1]:
             ctx.violation("E4", f"repeating the same CLI comparison gives different exit codes {codes}", canon)
         if idx % 10 == 0:
